@@ -231,7 +231,7 @@ func (m *tmon) chainOf(e tev) ([]ctlref.Frame, *ctlref.Node, bool) {
 		return own(3), n, true
 	case "I":
 		return own(0), n, true
-	case "L", "Xt", "Xr", "Xb", "Xc", "Y", "Y-", "Y*", "Y*-", "D>", "D<", "M", "G", "Nv", "Nd", "Nt", "Nb", "Ro", "Rt", "Rb", "MF", "AD", "SX":
+	case "L", "Xt", "Xr", "Xb", "Xc", "Y", "Y-", "Y*", "Y*-", "D>", "D<", "M", "G", "Nv", "Nd", "Nt", "Nb", "Ro", "Rt", "Rb", "MF", "AD", "SX", "GS", "GX":
 		return base, n, true
 	}
 	return nil, nil, false
@@ -578,14 +578,14 @@ func traceSpecMode(prog *ctlref.Program, log []string, final string, faulted boo
 				f.hasReturn = en.Iter.Ret != ctlref.RetNone
 			}
 			a.stack = append(a.stack, f)
-		case "Nv", "Nd", "Nt", "Nb", "Ro", "Rt", "Rb", "MF", "AD", "SX":
+		case "Nv", "Nd", "Nt", "Nb", "Ro", "Rt", "Rb", "MF", "AD", "SX", "GS", "GX":
 			req := append(reqOf(ec), mframe{id: en.ID})
 			m.reconcile(a, req, e, idx)
 			f := m.top(a)
 			if f == nil || f.try || f.id != en.ID {
 				break
 			}
-			if e.tag != "SX" && e.tag != "MF" && e.tag != "AD" && len(e.ints) >= 2 && f.inst != e.ints[1] {
+			if e.tag != "SX" && e.tag != "MF" && e.tag != "AD" && e.tag != "GS" && e.tag != "GX" && len(e.ints) >= 2 && f.inst != e.ints[1] {
 				m.fail(e, idx, "event of iterator instance %d while instance %d of consumer %d is the open one (S1)", e.ints[1], f.inst, en.ID)
 			}
 			switch e.tag[0] {
@@ -634,6 +634,16 @@ func traceSpecMode(prog *ctlref.Program, log []string, final string, faulted boo
 		case "Nv":
 			if en.Kind == ctlref.NewMap && !en.Iter.Pairs {
 				p := m.newPend('t', en, "", "THROW E:TypeError") // AddEntriesFromIterable: entry is not an object
+				p.own = en.ID
+				m.pushPend(a, p)
+			}
+		case "GX":
+			if en.Op >= 2 { // the Go step callback throws: Runtime.ForOf closes the iterator, the callback's exception wins
+				fin := "THROW " + num(63000+en.ID)
+				if en.Op == 3 {
+					fin = "THROW E:TypeError"
+				}
+				p := m.newPend('t', en, "", fin)
 				p.own = en.ID
 				m.pushPend(a, p)
 			}
